@@ -75,7 +75,7 @@ CHECKS["C14"] = {
             "returned. Every explored schedule is replayed on the real Reader / Writer, including frames that claim 0x7ffffff0 bytes (allocation "
             "before the check becomes visible through the counting allocator); random runs are validated event by event.",
     "design_ref": "DESIGN.md section 6, C14",
-    "note": "Trusted: TLC, std's read_exact/write_all as documented, the counting allocator. Only Interrupted errors are in the model on the read "
+    "note": "Every twelfth random run moves three frames of up to 70 000 bytes; runs start from new(), a small stale buffer or a pre-sized one (with_buffer); recorded accept / deliver events bind their k (linear validation). Trusted: TLC, std's read_exact/write_all as documented, the counting allocator. Only Interrupted errors are in the model on the read "
             "side, as in the property's quantifier.",
     "technique": "TLA+ state-machine spec (BlockingIO) + TLC exhaustive exploration of fragmentation/interruption/cut schedules + schedule replay + trace validation",
     "engine": "tlc+vh",
@@ -89,7 +89,7 @@ CHECKS["C13"] = {
             "each recorded outcome: success iff it fits, identical bytes in every sink, write error otherwise with a prefix left behind, position = "
             "bytes accepted, nothing outside the sink touched.",
     "design_ref": "DESIGN.md section 6, C13",
-    "note": "Also: std::io sinks that make short writes (a bounded &mut [u8], a writer taking three bytes per call); an unbounded TLAPS proof of the position law of the length abstraction (bonus). Trusted: TLC; the reference encoding is the encoder's own Vec output (sink independence is what is decided here, byte correctness is C03).",
+    "note": "Besides token sequences, values are written through their own Encode impls (ArrayIter / MapIter under four kinds of size hint, Vec, tuples, maps, options, arrays, Result) into every bounded sink at every capacity. Also: std::io sinks that make short writes (a bounded &mut [u8], a writer taking three bytes per call); an unbounded TLAPS proof of the position law of the length abstraction (bonus). Trusted: TLC; the reference encoding is the encoder's own Vec output (sink independence is what is decided here, byte correctness is C03).",
     "technique": "TLA+ spec of the sink laws (Sinks) + TLC enumeration of write sequences + replay on the real sinks + trace validation over all capacities",
     "engine": "tlc+vh",
 }
@@ -128,7 +128,7 @@ CHECKS["C03"] = {
             "preferred item carrying the value given. Every explored call and sequence is replayed on Encoder<Vec<u8>> (twice, for determinism); "
             "exhaustive 8/16-bit and boundary-dense/random 32/64-bit arguments, all 256 simple values and random call sequences are validated by TLC.",
     "design_ref": "DESIGN.md section 6, C03 and section 7 (F2)",
-    "note": "Also: ArrayIter / MapIter under every kind of size hint (Encoder!IterBytes); a table-driven sweep of the 32-bit argument space against class rows emitted by TLC (MC_Tables). Trusted: TLC, the transcription of RFC 8949 section 3 and 4.1. Known finding: simple(24..=31). The built-in Encode impls are decided by the "
+    "note": "The built-in Encode impls are judged on the typed events shared with C01 (conjunct enc), data::Token's impl on the token events of C11 (conjunct tokenc). Also: ArrayIter / MapIter under every kind of size hint (Encoder!IterBytes); a table-driven sweep of the 32-bit argument space against class rows emitted by TLC (MC_Tables). Trusted: TLC, the transcription of RFC 8949 section 3 and 4.1. Known finding: simple(24..=31). The built-in Encode impls are decided by the "
             "C01 check's events (bytes equal the reference encoding of the value).",
     "technique": "TLA+ spec of the Encoder as an append-only log with ghost nesting (Encoder/CborData) + TLC + replay + trace validation",
     "engine": "tlc+vh",
@@ -169,7 +169,7 @@ CHECKS["C01"] = {
             "boundary-first random values of every instantiation are validated by TLC (bytes = reference encoding, decode = value, exact "
             "consumption), as are re-framed encodings of the same item.",
     "design_ref": "DESIGN.md section 6, C01",
-    "note": "Exploration-grade: universal over each value space only by boundaries and sampling; compositions beyond the listed instantiations "
+    "note": "data::Token is covered through the token events of C11 (conjunct tokrt: what comes back from the bytes Token's Encode wrote). The last value of every loop has 130 - 300 elements; a fatal signal in the code under test (double free ...) is reported as a violation with a witness. Exploration-grade: universal over each value space only by boundaries and sampling; compositions beyond the listed instantiations "
             "are not compiled. The harness projection is structural (no CBOR knowledge).",
     "technique": "TLA+ reference semantics of the built-in impls (Builtin) + TLC case emission and replay + trace validation of sampled round trips",
     "engine": "tlc+vh",
@@ -264,7 +264,7 @@ CHECKS["C18"] = {
             "by the other side, a random re-framing decoded by both) are validated by TLC: identical bytes, the same value with exact consumption in "
             "both cross directions, and for re-framings that value or an error on each side.",
     "design_ref": "DESIGN.md section 6, C18",
-    "note": "Exploration-grade: boundary values + sampling per instantiation. Hash collections are compared as bags.",
+    "note": "Shared types that borrow text (&str, Option<&str>, (u8, &str), Vec<&str>) and fixed arrays of 23 / 24 / 25 elements are included; the last value of every loop has 130 - 300 elements. Exploration-grade: boundary values + sampling per instantiation. Hash collections are compared as bags.",
     "technique": "TLA+ embedding of the shared types into the serde model (Serde!Embed) with an agreement invariant checked by TLC + replay through both decoders + trace validation",
     "engine": "tlc+vh",
 }
@@ -279,7 +279,7 @@ CHECKS["C20"] = {
             "typed decode / re-encode / length of every built-in instantiation, encoder call sequences, tokenizer, display and the bridge's typed, "
             "self-describing, ignoring and serialising paths; the merged transcripts are validated by TLC pair by pair.",
     "design_ref": "DESIGN.md section 6, C20",
-    "note": "Exploration-grade: a sampled corpus (about 85 000 operation-input pairs quick). Equality of two recorded observations is literal JSON "
+    "note": "The corpus contains strings, arrays and maps with declared lengths 2^31 ... 2^64 - 1 (alone, followed by a few items, nested), and fixed-arity target types meet the structural mutations of their encodings systematically. Exploration-grade: a sampled corpus (about 85 000 operation-input pairs quick). Equality of two recorded observations is literal JSON "
             "equality computed while merging; the judgement of every difference is the specification's. Not observed: error message texts.",
     "technique": "TLA+ spec of the configuration-independence relation and its documented exceptions (Cfg) + trace validation of merged per-configuration transcripts of six separately built binaries",
     "engine": "tlc+vh",
